@@ -221,7 +221,12 @@ func ruleBasketWho(c *Ctx, m *Model, r *E1) {
 		}
 		nMint++
 		fk := funcKey(s.Fn)
-		c.Check(strings.HasSuffix(fk, "basket/keeper.Keeper).Put"), "C05.WHO", fk+"#MintCoins", p.Pos(s.Call.Pos()), "MintCoins is called from basket Put only (the E1 identity EQ5 covers that site)")
+		only, chain := m.reachedOnlyThrough(s.Fn, m.entryFns("basket.Put"))
+		why := ""
+		if !only {
+			why = ": reached without passing through it by " + chain
+		}
+		c.Check(only, "C05.WHO", fk+"#MintCoins", p.Pos(s.Call.Pos()), "MintCoins is called only on call chains through the basket Put handler (the E1 identity EQ5 covers that site)"+why)
 	}
 	c.Min("MintCoins sites", 1, nMint)
 	// immutable basket identity fields
